@@ -36,7 +36,9 @@ def _run_job(args):
         fn = getattr(mod, job.func)
         res = fn(timeout_ms=timeout_ms, **job.kw)
         return dict(job=job.label(), results=res, error=None, wall=time.time() - t0)
-    except Exception as e:
+    except (KeyboardInterrupt, SystemExit):
+        raise
+    except BaseException as e:
         return dict(job=job.label(), results=[], error="%s: %s\n%s" % (type(e).__name__, e, traceback.format_exc()[-1500:]),
                     wall=time.time() - t0)
 
